@@ -2022,7 +2022,12 @@ class Parallel(Logger):
             raise
 
     def _call(self, iterable):
-        self.n_tasks = len(iterable) if hasattr(iterable, "__len__") else None
+        try:
+            self.n_tasks = len(iterable) if hasattr(iterable, "__len__") else None
+        except TypeError:
+            # an iterable of unknown length (e.g. tqdm around a generator):
+            # the number of tasks is only used to report progress
+            self.n_tasks = None
         self._start_time = time.time()
 
         if not self._managed_backend:
